@@ -97,14 +97,15 @@ def interrupt_while_loading(chk):
     a file it includes, is executing (the file sends the signal to its own process -- deterministic).  Conductor must
     exit non-zero REPORTING THE ABORT, and must not start any task.  (D32: inside an included file the abort was caught
     by `except Exception` and reported as a parse error of that file.)"""
-    for where in ("cond-file", "included-file"):
+    for where in ("cond-file", "included-file", "cond-file/inherited-ignore"):
         for signame in ("SIGINT", "SIGTERM"):
+            inherited = (getattr(signal, signame),) if where.endswith("inherited-ignore") else ()
             poke = "import os, signal\nos.kill(os.getpid(), signal.%s)\nX = 1\n" % signame
             files = {"COND": ("include('inc.cond')\n" if where == "included-file" else poke) + 'run_command(name="t", run="touch $COND_OUT/ran")\n'}
             if where == "included-file":
                 files["inc.cond"] = poke
             root = implrun.make_project(files)
-            res = implrun.run_cond(["run", "//:t"], root, timeout=30)
+            res = implrun.run_cond(["run", "//:t"], root, timeout=30, inherit_ignored=inherited)
             chk.coverage["evaluations"] += 1
             chk.count("interrupt while loading", "%s/%s" % (where, signame))
             text = implrun.strip_ansi(res.out + res.err)
@@ -117,7 +118,7 @@ def interrupt_while_loading(chk):
             if ran:
                 problems.append("the task was executed")
             for msg in problems:
-                chk.violation("impl-violation", "%s delivered while %s is being evaluated: %s" % (signame, "the COND file" if where == "cond-file" else "an included file", msg),
+                chk.violation("impl-violation", "%s delivered while %s is being evaluated: %s" % (signame, {"cond-file": "the COND file", "included-file": "an included file"}.get(where, "the COND file (Conductor was started with the signal ignored)"), msg),
                               {"input": {"part": "interrupt-while-loading", "files": files, "argv": ["run", "//:t"]}, "impl_observation": {"exit": res.code, "output": text[-600:]},
                                "oracle_verdict": msg}, match_key={"point": "loading:" + where}, size=1)
             if not problems:
@@ -192,7 +193,16 @@ def real_interrupts(chk, n):
         env = dict(os.environ, PYTHONPATH=SRC)
         if shape == 2:
             env["PYTHONUNBUFFERED"] = "1"
-        p = subprocess.Popen([PY, "-m", "conductor"] + argv, cwd=root, env=env, stdout=subprocess.PIPE, stderr=subprocess.PIPE)
+        sig = rng.choice([signal.SIGINT, signal.SIGTERM])
+        # the disposition Conductor starts with: default, or ignored (a background job of a non-interactive shell, nohup,
+        # `trap '' TERM`) -- the signal "reaches cond run" either way, and the harness's own inheritance does not matter
+        ignored = it % 2 == 1
+
+        def dispositions(sig=sig, ignored=ignored):
+            for s_ in (signal.SIGINT, signal.SIGTERM):
+                signal.signal(s_, signal.SIG_IGN if (ignored and s_ == sig) else signal.SIG_DFL)
+
+        p = subprocess.Popen([PY, "-m", "conductor"] + argv, cwd=root, env=env, stdout=subprocess.PIPE, stderr=subprocess.PIPE, preexec_fn=dispositions)
         # wait until the children exist
         deadline = time.time() + 20
         pids = []
@@ -208,7 +218,6 @@ def real_interrupts(chk, n):
                 break
             time.sleep(0.05)
         time.sleep(rng.random() * 0.3)
-        sig = rng.choice([signal.SIGINT, signal.SIGTERM])
         if shape == 2:
             p.stdout.close()      # the reader of Conductor's stdout is gone
         p.send_signal(sig)
@@ -241,7 +250,7 @@ def real_interrupts(chk, n):
                 pass
         rows = implrun.index_rows(root)
         chk.coverage["evaluations"] += 1
-        chk.count("real", "%s shape %d" % (signal.Signals(sig).name, shape))
+        chk.count("real", "%s shape %d%s" % (signal.Signals(sig).name, shape, " (inherited as ignored)" if ignored else ""))
         text = (out + err).decode("utf-8", "replace")
         problems = []
         if len(pids) != nchildren:
